@@ -1963,7 +1963,8 @@ func (mgr *Manager) attachConverterToTag(tag *tag, tagName string, converter *co
 func (mgr *Manager) detachConverterFromTag(tag *tag, tagName string, converter *converters.CachedConverter) error {
 	for i, c := range tag.converters {
 		if c == converter {
-			tag.converters = append(tag.converters[:i], tag.converters[i+1:]...)
+			// build a new slice, callers range over tag.converters while detaching
+			tag.converters = append(slices.Clone(tag.converters[:i]), tag.converters[i+1:]...)
 			break
 		}
 	}
